@@ -34,6 +34,10 @@ def models(tier):
     alpha1 = [("m", 0, "rh:1"), ("m", 0, "rh:2"), ("eof", 0), ("m", 0, "dpr"), ("accept",), ("m", 1, "cer_p0"), ("m", 1, "rh:1"), ("eof", 1),
               ("ans", 0), ("ans", 1), ("ans", 2), ("ans2", 0), ("ans2", 1), ("tick", 3)]
     out.append(monitors.ScenarioModel("one-peer-reconnecting", BASE, alpha1, MONS, max_socks=2, prelude=[("accept",), ("m", 0, "cer_p0")]))
+    # the same peer holds two connections; the one that carried the request is lost before the answer
+    alpha2 = [("eof", 0), ("eof", 1), ("m", 0, "dpr"), ("m", 1, "rh:1"), ("m", 1, "rh:2"), ("ans", 0), ("ans", 1), ("ans", 2), ("ans2", 0), ("rst", 0)]
+    out.append(monitors.ScenarioModel("one-peer-two-connections", BASE, alpha2, MONS, max_socks=2,
+                                      prelude=[("accept",), ("m", 0, "cer_p0"), ("m", 0, "rh:1"), ("m", 0, "rh:2"), ("accept",), ("m", 1, "cer_p0")]))
     return out
 
 
@@ -71,6 +75,8 @@ def sched_execute(variant, prefix):
         elif variant == "dpr":
             nw.deliver(s0.fs, sc.message(s0, "dpr"), run=False)
         sk.spawn(answerer, "answerer")
+        if variant == "double":
+            sk.spawn(answerer, "answerer2")      # the application submits the same answer from two threads
         nw.run()
         ch.window = False
         nw.world.points_on = False
@@ -84,8 +90,11 @@ def sched_execute(variant, prefix):
             vs.append(("answer-route:application-answer-transmitted-on-another-connection", f"{variant}: {on1}"))
         if len(on0) > 1:
             vs.append(("answer-route:application-answer-transmitted-twice", f"{variant}: {on0}"))
-        if res and res[0] not in ("sent", "NotRoutable"):
-            vs.append((f"answer-route:submission-fails-with-{res[0]}-instead-of-NotRoutable:racing-with-{variant}", f"{res}"))
+        for r0 in res:
+            if r0 not in ("sent", "NotRoutable"):
+                vs.append((f"answer-route:submission-fails-with-{r0}-instead-of-NotRoutable:racing-with-{variant}", f"{res}"))
+        if variant == "double" and sorted(res) != ["NotRoutable", "sent"]:
+            vs.append(("answer-route:two-concurrent-submissions-for-one-request-not-exactly-one-accepted", f"outcomes {res}, frames {len(on0)}"))
         for m in mons[1:]:
             vs += m.step()
         fails = nw.thread_failures()
@@ -105,8 +114,8 @@ def run(tier):
     common.pool()
     bound = 2 if tier == "thorough" else 1
     sched = 0
-    tasks = [(functools.partial(sched_execute, v), sched_check, bound) for v in ("eof", "dpr")]
-    for v, r in zip(("eof", "dpr"), scheddfs.explore_many(tasks)):
+    tasks = [(functools.partial(sched_execute, v), sched_check, bound) for v in ("eof", "dpr", "double")]
+    for v, r in zip(("eof", "dpr", "double"), scheddfs.explore_many(tasks)):
         sched += r["executions"]
         for (key, detail), choices in r["violations"]:
             rep.add(Violation(key, f"[send_answer racing with {v}, bound {bound}] choices {choices}: {detail}", {"sched": v, "choices": choices}))
